@@ -85,21 +85,21 @@ type c35bScenario struct {
 	pubProto        string // rtsp | rtmp | srt
 	sdpParams       bool   // hostile parameters already in the description (RTSP only)
 	vps, sps, pps   []byte
+	idr, slice      []byte // key frame and non-key frame slices (hostile in some scenarios)
 	name            string
-	extraAU         [][]byte
 }
 
 func (s *c35bScenario) au(k int) [][]byte {
 	if s.codec == "h264" {
 		if k%3 == 0 {
-			return [][]byte{s.sps, s.pps, {0x65, 0x88, 0x84, 0x00, 0x10}}
+			return [][]byte{s.sps, s.pps, s.idr}
 		}
-		return [][]byte{{0x41, 0x9a, 0x00, 0x10}}
+		return [][]byte{s.slice}
 	}
 	if k%3 == 0 {
-		return [][]byte{s.vps, s.sps, s.pps, {0x26, 0x01, 0xaf, 0x08, 0x40}}
+		return [][]byte{s.vps, s.sps, s.pps, s.idr}
 	}
-	return [][]byte{{0x02, 0x01, 0xd0, 0x10}}
+	return [][]byte{s.slice}
 }
 
 // publish runs the publisher until stop is closed (or the server cuts it off).
@@ -417,8 +417,13 @@ func TestVerifC35Publisher(t *testing.T) {
 		if rng.IntN(3) == 0 {
 			s.name = fmt.Sprintf("rec%d", i)
 		}
-		which := rng.IntN(4) // which parameter set is hostile: one of them, or all
+		which := rng.IntN(6) // which parameter set is hostile: one of them, all, or (4, 5) the slices
 		if s.codec == "h264" {
+			s.idr, s.slice = []byte{0x65, 0x88, 0x84, 0x00, 0x10, 0xff, 0xfe, 0xf6, 0xf0, 0xfe, 0x05, 0x36, 0x56, 0x04, 0x50, 0x96, 0x7b, 0x3f, 0x53, 0xe1}, []byte{0x41, 0x9a, 0x21, 0x6c, 0x45, 0xff, 0xfe, 0xf6, 0xf0, 0xfe, 0x05, 0x36}
+			if which >= 4 {
+				s.idr = c35bHostile(rng, s.idr, 1)
+				s.slice = c35bHostile(rng, s.slice, 1)
+			}
 			s.sps, s.pps = c35bSPS264, c35bPPS264
 			if which == 0 || which == 3 {
 				s.sps = c35bHostile(rng, c35bSPS264, 1)
@@ -427,6 +432,11 @@ func TestVerifC35Publisher(t *testing.T) {
 				s.pps = c35bHostile(rng, c35bPPS264, 1)
 			}
 		} else {
+			s.idr, s.slice = []byte{0x26, 0x01, 0xaf, 0x08, 0x40, 0x24, 0x5f, 0xfe, 0x9d, 0x19, 0x70, 0x4b, 0x2c, 0x1a, 0x99, 0x01}, []byte{0x02, 0x01, 0xd0, 0x10, 0xb3, 0x5f, 0xfe, 0x9d, 0x19, 0x70, 0x4b}
+			if which >= 4 {
+				s.idr = c35bHostile(rng, s.idr, 2)
+				s.slice = c35bHostile(rng, s.slice, 2)
+			}
 			s.vps, s.sps, s.pps = c35bVPS265, c35bSPS265, c35bPPS265
 			if which == 0 || which == 3 {
 				s.sps = c35bHostile(rng, c35bSPS265, 2)
@@ -467,7 +477,7 @@ func TestVerifC35Publisher(t *testing.T) {
 		case <-time.After(10 * time.Second):
 			perr = fmt.Errorf("publisher did not stop")
 		}
-		key := fmt.Sprintf("%s|%s|%v|%x|%x|%x", s.codec, s.pubProto, s.sdpParams, s.vps, s.sps, s.pps)
+		key := fmt.Sprintf("%s|%s|%v|%x|%x|%x|%x|%x", s.codec, s.pubProto, s.sdpParams, s.vps, s.sps, s.pps, s.idr, s.slice)
 		r.Eval(key)
 		r.Count("publisher_"+s.pubProto+"_"+s.codec, 1)
 		for k, v := range outcomes {
@@ -480,7 +490,7 @@ func TestVerifC35Publisher(t *testing.T) {
 		if !child.alive() {
 			msg, site := child.crashInfo()
 			crashes++
-			r.Violation("crash:"+site, fmt.Sprintf("the server process terminated (%s, in %s) after an anonymous %s publisher sent %s with hostile parameter sets (vps %x sps %x pps %x; in the description: %v) and anonymous readers of every protocol asked for the stream (reader outcomes %v)", msg, site, s.pubProto, s.codec, s.vps, s.sps, s.pps, s.sdpParams && s.pubProto == "rtsp", outcomes),
+			r.Violation("crash:"+site, fmt.Sprintf("the server process terminated (%s, in %s) after an anonymous %s publisher sent %s with hostile parameter sets or slices (vps %x sps %x pps %x; in the description: %v; key-frame slice "+fmt.Sprintf("%x", s.idr)+") and anonymous readers of every protocol asked for the stream (reader outcomes %v)", msg, site, s.pubProto, s.codec, s.vps, s.sps, s.pps, s.sdpParams && s.pubProto == "rtsp", outcomes),
 				map[string]any{"codec": s.codec, "publisher": s.pubProto, "vps": fmt.Sprintf("%x", s.vps), "sps": fmt.Sprintf("%x", s.sps), "pps": fmt.Sprintf("%x", s.pps), "stderr": child.errLog})
 			child = c35Start(t, dir, cf, ports["rtsp"])
 		}
@@ -489,6 +499,6 @@ func TestVerifC35Publisher(t *testing.T) {
 		}
 	}
 	r.Count("server_process_crashes", int64(crashes))
-	r.Finish("the real server in a child process (RTSP, RTMP, SRT, HLS on demand, WebRTC, API, playback; default authentication = anybody may publish and read; names starting with 'rec' are recorded): per scenario an anonymous RTSP / RTMP / SRT publisher (gortsplib, gortmplib, gosrt + MPEG-TS) sends H264 or H265 whose SPS / PPS / VPS are hostile (truncated, header only, random, bit flips, all ones, all zeros, huge values; in the RTSP description and / or in band before every key frame), then anonymous readers of every protocol ask for the stream at once (RTSP DESCRIBE-SETUP-PLAY, RTMP play, SRT read, HLS index + playlist + files, WHEP offer, API path query). Oracle: the server process is alive after every scenario; a crash is reported with the panic site from its stderr. non-trivial = distinct (codec, publisher protocol, parameter sets)",
+	r.Finish("the real server in a child process (RTSP, RTMP, SRT, HLS on demand, WebRTC, API, playback; default authentication = anybody may publish and read; names starting with 'rec' are recorded): per scenario an anonymous RTSP / RTMP / SRT publisher (gortsplib, gortmplib, gosrt + MPEG-TS) sends H264 or H265 whose SPS / PPS / VPS or whose slices (key frame and others) are hostile (truncated, header only, random, bit flips, all ones, all zeros, huge values; in the RTSP description and / or in band before every key frame), then anonymous readers of every protocol ask for the stream at once (RTSP DESCRIBE-SETUP-PLAY, RTMP play, SRT read, HLS index + playlist + files, WHEP offer, API path query). Oracle: the server process is alive after every scenario; a crash is reported with the panic site from its stderr. non-trivial = distinct (codec, publisher protocol, parameter sets)",
 		"client-library panics on what the server relays are outcomes of the reader, not verdicts; audio codecs and AV1 / VP9 / MPEG-4 Video parameters are not mutated")
 }
